@@ -88,6 +88,10 @@ func hist2Run(focus string) func(t *testing.T, p hist2Plan) vfResult {
 				}
 			}
 			synctest.Wait()
+			if focus == "C09" || focus == "C17" {
+				hist2Probes(w, m, focus, restarts, &res)
+				return
+			}
 			obs := c11Observe(w, r, m, "h")
 			checked := 0
 			for _, o := range obs {
@@ -257,6 +261,92 @@ func hist2Run(focus string) func(t *testing.T, p hist2Plan) vfResult {
 		})
 		return res
 	}
+}
+
+// hist2Probes watches the probes of the 12 s after the history. C09: every target of every service in place is probed
+// on the health path and at the interval of the options in force (count within one per stream). C17: nobody else is -
+// not the targets of removed or replaced deployments, not those of refused commands, not those of the proxy that was
+// there before a restart. Rollout targets that still carry earlier options (the listed finding) are left out.
+func hist2Probes(w *vfWorld, m *vfModel, focus string, restarts int, res *vfResult) {
+	const window = 12 * time.Second
+	t0 := w.now()
+	time.Sleep(window)
+	synctest.Wait()
+	t1 := w.now()
+	type pk struct{ target, path string }
+	lo, hi, got := map[pk]int{}, map[pk]int{}, map[pk]int{}
+	ambiguous := map[string]bool{}
+	for _, n := range m.staleRolloutOptions() {
+		for _, tn := range m.Svcs[n].Rollout {
+			ambiguous[tn] = true
+		}
+	}
+	streams := 0
+	for _, name := range vfSortedKeys(m.Svcs) {
+		s := m.Svcs[name]
+		to := s.Opt.targetOptions()
+		per := int(window / to.HealthCheckConfig.Interval)
+		for _, tn := range append(append([]string{}, s.Active...), s.Rollout...) {
+			k := pk{tn, to.HealthCheckConfig.Path}
+			lo[k] += per - 1
+			hi[k] += per + 1
+			streams++
+		}
+	}
+	seen := map[string]bool{}
+	for _, tn := range append(vfAllTargets(), vfDeadPool...) {
+		if seen[tn] {
+			continue
+		}
+		seen[tn] = true
+		for _, pr := range w.target(tn).probeLog() {
+			if pr.At > t0 && pr.At <= t1 {
+				got[pk{tn, pr.Path}]++
+			}
+		}
+	}
+	for k := range lo {
+		if _, ok := got[k]; !ok {
+			got[k] = 0
+		}
+	}
+	for _, k := range vfSortedKeysFunc(got, func(a, b pk) bool { return a.target+a.path < b.target+b.path }) {
+		if ambiguous[k.target] {
+			res.label("skipped:stale-rollout-target")
+			continue
+		}
+		switch focus {
+		case "C09":
+			if got[k] < lo[k] {
+				res.failf("probing-stopped-or-slow", "in the %v after the history (%d restarts), target %s got %d probes of %q; by the options of the services that use it, at least %d", window, restarts, k.target, got[k], k.path, lo[k])
+				return
+			}
+		case "C17":
+			if got[k] > hi[k] {
+				what := "more probes than the services that use it send"
+				if hi[k] == 0 {
+					what = "no service in place uses it (with this health path)"
+				}
+				res.failf("probed-by-nobody's-business", "in the %v after the history (%d restarts), target %s got %d probes of %q; at most %d expected: %s", window, restarts, k.target, got[k], k.path, hi[k], what)
+				return
+			}
+		}
+	}
+	if restarts > 0 {
+		res.label("restart-in-history")
+	}
+	if streams > 0 {
+		res.label("targets-in-place")
+	}
+	res.NonTrivial = streams > 0
+}
+
+func TestVF_C09_History(t *testing.T) {
+	vfCheck(t, vfProp[hist2Plan]{id: "C09", gen: hist2Gen, run: hist2Run("C09")})
+}
+
+func TestVF_C17_History(t *testing.T) {
+	vfCheck(t, vfProp[hist2Plan]{id: "C17", gen: hist2Gen, run: hist2Run("C17")})
 }
 
 func TestVF_C13_History(t *testing.T) {
